@@ -125,12 +125,13 @@ def run(ctx):
         rnd.shuffle(idem)
         scens = nonid + idem[:40]
     out = []
-    for cfg in (['forward_max_tries 25\n'] + (['retry_on_error on\nforward_max_tries 5\n'] if ctx.thorough else [])):
-        sq = squidctl.Squid(ctx, tree, clock=False, hosts=HOSTS, conf_extra=cfg + 'connect_timeout 3 seconds\nread_timeout 8 seconds\n')
+    for cfg, pc in [(c, pc) for c in (['forward_max_tries 25\n'] + (['retry_on_error on\nforward_max_tries 5\n'] if ctx.thorough else [])) for pc in (False, True)]:
+        group = [(i, s) for i, s in enumerate(scens) if s['par']['pconnNonretriable'] == pc]
+        sq = squidctl.Squid(ctx, tree, clock=False, hosts=HOSTS, conf_extra=cfg + ('server_pconn_for_nonretriable allow all\n' if pc else '') + 'connect_timeout 3 seconds\nread_timeout 8 seconds\n')
         sq.start()
         try:
             async def main():
-                return await escen.gather_limited([realise(ctx, sq, i + 1, s, random.Random(ctx.seed * 100003 + i)) for i, s in enumerate(scens)], limit=8)
+                return await escen.gather_limited([realise(ctx, sq, i + 1, s, random.Random(ctx.seed * 100003 + i)) for i, s in group], limit=8)
             out += asyncio.run(main())
             if not sq.alive():
                 ctx.violation('squid exited during the run', {'kind': 'exit', 'log': sq.tail_log()})
@@ -153,6 +154,6 @@ def run(ctx):
     ctx.cov['nonidempotent_scenarios'] = sum(1 for o in out if o['par']['method'] in ('POST', 'PATCH', 'FOO'))
     for o in out[:2]:
         ctx.sample({'par': o['par'], 'events': o['ev'], 'client_status': o['status']})
-    ctx.cov['rule'] = ('classes = ForwardImpl.tla (method x body framing x failure point of the first upstream attempt x reused persistent connection x one/two origin '
+    ctx.cov['rule'] = ('classes = ForwardImpl.tla (method x body framing x failure point of the first upstream attempt x reused persistent connection x server_pconn_for_nonretriable x one/two origin '
                        'addresses, one refusing); origin stubs count on how many upstream connections the request arrived; histories validated by TLC against Forward.tla. '
                        'Non-trivial = distinct class.')
